@@ -188,6 +188,16 @@ def check(case):
             raise Violation("rejected-but-state-changed",
                             "d[%r] = %r raised ValueError but items went from %s to %s"
                             % (key, value, short(before), short(after)))
+        # The statement only says which values MUST be rejected.  That a value is accepted is
+        # promised elsewhere (C02) for first line + continuation lines that start with a blank and
+        # contain non-blank text; for other values (whitespace-only continuation lines, CR used as
+        # a line boundary) a stricter validator would still satisfy this property.
+        plain = [l for l in value.split("\n")]
+        c02_domain = "\r" not in value and all(
+            l[:1] in (" ", "\t") and l.strip(" \t") != "" for l in plain[1:])
+        if verdict is None and not c02_domain:
+            labels.append("rejected-outside-c02-domain")
+            return (True, labels)
         if verdict is None:
             raise Violation("rejected-valid-value",
                             "d[%r] = %r raised ValueError although it does not end in a newline and every "
